@@ -409,11 +409,18 @@ def deepRef : Nat → DState → Ref → DState × Option Ref
   | fuel + 1, st, r =>
     match r with
     | .frame f => ((cloneFr st f).1, some (.frame (cloneFr st f).2))
-    | .infos o _ =>
+    | .infos o g =>
       -- pickle / deepcopy duplicate the helper together with the object it is bound to (memo): the duplicate is bound to the duplicate
-      match deepRef fuel st (.addr o) with
-      | (st2, some (.addr o')) => ({ st2 with h := st2.h ++ [.clone] }, some (.infos o' st2.h.length))
-      | (st2, _) => (st2, none)
+      -- the helper itself goes through the memo (keyed by its marker cell): the object it is bound to usually holds it too
+      match st.m.lookup g with
+      | some g' =>
+        match deepRef fuel st (.addr o) with
+        | (st2, some (.addr o')) => (st2, some (.infos o' g'))
+        | (st2, _) => (st2, none)
+      | none =>
+        match deepRef fuel { st with h := st.h ++ [.clone], m := (g, st.h.length) :: st.m } (.addr o) with
+        | (st2, some (.addr o')) => (st2, some (.infos o' st.h.length))
+        | (st2, _) => (st2, none)
     | .addr a =>
       match st.m.lookup a with
       | some a' => (st, some (.addr a'))
